@@ -53,10 +53,17 @@ type TSummary struct {
 	Ret         map[int]labelSet    // result index -> labels
 	FieldStores map[string]labelSet // field label -> labels of values stored into the field
 	Unmodelled  []TSite             // external/dynamic calls receiving tracked values
+	// Releases (only with TaintEngine.PoolRelease): label -> sync.Pool.Put sites
+	// that give memory with that label back to a pool. With the option the Put
+	// is NOT recorded as an escape, so Escapes holds real escapes only.
+	Releases map[string][]TSite
+	// Unknown (only with TaintEngine.PoolRelease): label -> unmodelled external /
+	// dynamic calls that receive memory with that label (label-keyed Unmodelled).
+	Unknown map[string][]TSite
 }
 
 func newTSummary() *TSummary {
-	return &TSummary{Writes: map[string][]TSite{}, Escapes: map[string][]TSite{}, Ret: map[int]labelSet{}, FieldStores: map[string]labelSet{}}
+	return &TSummary{Writes: map[string][]TSite{}, Escapes: map[string][]TSite{}, Ret: map[int]labelSet{}, FieldStores: map[string]labelSet{}, Releases: map[string][]TSite{}, Unknown: map[string][]TSite{}}
 }
 
 func (s *TSummary) size() int {
@@ -71,6 +78,12 @@ func (s *TSummary) size() int {
 		n += len(v)
 	}
 	for _, v := range s.FieldStores {
+		n += len(v)
+	}
+	for _, v := range s.Releases {
+		n += len(v)
+	}
+	for _, v := range s.Unknown {
 		n += len(v)
 	}
 	return n
@@ -93,10 +106,15 @@ type TaintEngine struct {
 	ReadOnly map[string]bool
 	// PoolGet: treat results of sync.Pool.Get as label pool:<ident>
 	TrackPools bool
-	Sum        map[*ssa.Function]*TSummary
-	UsedModels map[string]int
-	callSites  map[*ssa.Function][]ssa.CallInstruction
-	funcFields map[FieldID][]ssa.Value
+	// PoolRelease (opt-in, needs TrackPools): sync.Pool.Put(x) is recorded in
+	// TSummary.Releases (and propagated to callers) instead of as a "retained
+	// by sync.Pool.Put" escape; Escapes of a caller then never hide a real
+	// escape of a helper behind the helper's Put.
+	PoolRelease bool
+	Sum         map[*ssa.Function]*TSummary
+	UsedModels  map[string]int
+	callSites   map[*ssa.Function][]ssa.CallInstruction
+	funcFields  map[FieldID][]ssa.Value
 }
 
 func NewTaintEngine(p *Prog) *TaintEngine {
@@ -295,6 +313,10 @@ func (s *fnState) sink(kind string, ls labelSet, in ssa.Instruction, what string
 		site := TSite{Pos: instrPos(in), Fn: s.fn, What: what, Instr: in, Local: !strings.HasPrefix(what, "via ")}
 		if kind == "w" {
 			s.sum.Writes[l] = append(s.sum.Writes[l], site)
+		} else if kind == "r" {
+			s.sum.Releases[l] = append(s.sum.Releases[l], site)
+		} else if kind == "u" {
+			s.sum.Unknown[l] = append(s.sum.Unknown[l], site)
 		} else {
 			s.sum.Escapes[l] = append(s.sum.Escapes[l], site)
 		}
@@ -335,6 +357,9 @@ func (s *fnState) mapLabels(ls labelSet, argAlias func(i int) labelSet, fvAlias 
 	out := labelSet{}
 	for l := range ls {
 		switch {
+		case strings.HasPrefix(l, "pool:"):
+			// not a parameter label ("p<i>"): a pool label passes through calls unchanged
+			out[l] = true
 		case strings.HasPrefix(l, "p"):
 			var i int
 			if _, err := fmt.Sscanf(l, "p%d", &i); err == nil {
@@ -373,7 +398,13 @@ func (s *fnState) applySummary(in ssa.Instruction, callee *ssa.Function, args []
 			return nil
 		}
 	}
+	// sinks of a callee's own pooled values ("pool:" labels) are reported in the
+	// callee, where the value lives; only its results carry the label outwards
+	own := func(l string) bool { return strings.HasPrefix(l, "pool:") }
 	for l, sites := range cs.Writes {
+		if own(l) {
+			continue
+		}
 		m := s.mapLabels(labelSet{l: true}, argAlias, fvAlias)
 		if len(m) > 0 {
 			w := sites[0]
@@ -381,10 +412,33 @@ func (s *fnState) applySummary(in ssa.Instruction, callee *ssa.Function, args []
 		}
 	}
 	for l, sites := range cs.Escapes {
+		if own(l) {
+			continue
+		}
 		m := s.mapLabels(labelSet{l: true}, argAlias, fvAlias)
 		if len(m) > 0 {
 			w := sites[0]
 			s.sink("e", m, in, fmt.Sprintf("via %s: %s at %s", FuncName(s.t.P, callee), w.What, s.t.P.Pos(w.Pos)))
+		}
+	}
+	for l, sites := range cs.Releases {
+		if own(l) {
+			continue
+		}
+		m := s.mapLabels(labelSet{l: true}, argAlias, fvAlias)
+		if len(m) > 0 {
+			w := sites[0]
+			s.sink("r", m, in, fmt.Sprintf("via %s: %s at %s", FuncName(s.t.P, callee), w.What, s.t.P.Pos(w.Pos)))
+		}
+	}
+	for l, sites := range cs.Unknown {
+		if own(l) {
+			continue
+		}
+		m := s.mapLabels(labelSet{l: true}, argAlias, fvAlias)
+		if len(m) > 0 {
+			w := sites[0]
+			s.sink("u", m, in, fmt.Sprintf("via %s: %s at %s", FuncName(s.t.P, callee), w.What, s.t.P.Pos(w.Pos)))
 		}
 	}
 	for f, ls := range cs.FieldStores {
@@ -483,12 +537,31 @@ func (s *fnState) step(in ssa.Instruction) bool {
 			return s.add(x, s.getHolds(x.X))
 		}
 	case *ssa.Extract:
-		// handled at the call; selects/others: nothing
+		// results of calls are handled at the call; the value component of a
+		// comma-ok type assertion / map look-up aliases what the operand does
+		if x.Index == 0 {
+			switch tu := x.Tuple.(type) {
+			case *ssa.TypeAssert:
+				return s.add(x, s.get(tu))
+			case *ssa.Lookup:
+				if isTrackedType(x.Type()) || isRefKind(x.Type()) {
+					return s.add(x, s.getHolds(tu.X))
+				}
+			}
+		}
 	case *ssa.FieldAddr:
 		// address of a field: remember as field label
 		id := fieldIDOfAddr(x)
 		if id.Type != "" {
-			return s.add(x, labelSet{"field:" + id.Type + "." + id.Field: true})
+			ch := s.add(x, labelSet{"field:" + id.Type + "." + id.Field: true})
+			if la := localStruct(x); la != nil && s.t.PoolRelease {
+				// a struct-typed local variable whose address does not leave the
+				// function is a bundle of cells: its fields hold what was stored into them
+				if s.add(x, s.get(la)) {
+					ch = true
+				}
+			}
+			return ch
 		}
 		return s.add(x, s.get(x.X))
 	case *ssa.Field:
@@ -576,6 +649,14 @@ func (s *fnState) step(in ssa.Instruction) bool {
 				if cur.addAll(va) {
 					ch = true
 				}
+				if la := localStruct(a); la != nil && s.t.PoolRelease {
+					// value flow into a local struct variable, not an escape: whoever
+					// loads the field (or the whole struct) gets the labels
+					if s.add(la, va) {
+						ch = true
+					}
+					break
+				}
 				// storing into a field of an object that is not a fresh local object is an escape
 				if !isFreshBase(a.X) || true {
 					s.sink("e", va, in, "stored into field "+shortID(id.Type)+"."+id.Field)
@@ -592,6 +673,20 @@ func (s *fnState) step(in ssa.Instruction) bool {
 		case *ssa.FreeVar:
 			if s.add(a, va) {
 				ch = true
+			}
+			if s.t.PoolRelease {
+				// a function literal that stores memory derived from one of its own
+				// parameters into a variable of the enclosing function keeps it
+				// beyond the call: an escape from the point of view of whoever calls it
+				pl := labelSet{}
+				for l := range va {
+					if strings.HasPrefix(l, "p") && !strings.HasPrefix(l, "pool:") {
+						pl[l] = true
+					}
+				}
+				if len(pl) > 0 {
+					s.sink("e", pl, in, "stored into a variable captured from the enclosing function")
+				}
 			}
 		default:
 			if s.add(x.Addr, va) {
@@ -766,11 +861,37 @@ func (s *fnState) call(ci ssa.CallInstruction) bool {
 			// receiver taint flows to results for methods on tracked values (e.g. buf.Bytes())
 		}
 	}
+	if s.t.PoolRelease && key != "sync.Pool.Put" {
+		if _, modelled := s.t.Models[key]; !modelled || key == "" {
+			k := key
+			if k == "" {
+				k = "dynamic call"
+			}
+			if !s.t.ReadOnly[k] {
+				for _, a := range args {
+					if (isTrackedType(a.Type()) || isRefKind(a.Type())) && !isErrorType(a.Type()) {
+						if ls := s.get(a); len(ls) > 0 {
+							s.sink("u", ls, in, k)
+						}
+					}
+				}
+			}
+		}
+	}
 	tracked := false
 	for _, a := range args {
 		if len(s.get(a)) > 0 && isTrackedType(a.Type()) && !isErrorType(a.Type()) {
 			tracked = true
 		}
+	}
+	if s.t.TrackPools && s.t.PoolRelease && key == "sync.Pool.Put" {
+		s.t.UsedModels[key]++
+		if len(args) > 0 {
+			if ls := s.both(args[0]); len(ls) > 0 {
+				s.sink("r", ls, in, "given back by sync.Pool.Put")
+			}
+		}
+		return false
 	}
 	if m, ok := s.t.Models[key]; ok && key != "" {
 		s.t.UsedModels[key]++
@@ -1095,4 +1216,25 @@ func mayRecover(fn *ssa.Function) bool {
 		})
 	})
 	return res
+}
+
+// localStruct: fa addresses a field of a struct-typed local variable that go/ssa
+// keeps on the stack (its address is not taken, it is not captured): the Alloc, else nil.
+func localStruct(fa *ssa.FieldAddr) *ssa.Alloc {
+	a, ok := fa.X.(*ssa.Alloc)
+	if !ok || a.Heap {
+		return nil
+	}
+	for _, r := range refs(a) {
+		switch x := r.(type) {
+		case *ssa.FieldAddr, *ssa.UnOp, *ssa.DebugRef:
+		case *ssa.Store:
+			if x.Addr != ssa.Value(a) {
+				return nil
+			}
+		default:
+			return nil
+		}
+	}
+	return a
 }
